@@ -49,7 +49,21 @@ RULE = ('certificate hierarchies of chain length 1..4 built with the real securi
         'schedules; per schedule the extracted concurrent model (Model/ValidatorConc.v) must give the same verdict / exception '
         'class / Interests per validation, the same outstanding Interests after every event and the same key storage, '
         'and the oracle demands accept <-> chain for every finished validation, a verdict for every finite chain and ONE '
-        'verdict per (configuration, packet) over all schedules.  non-trivial = at least one validation that needs a certificate '
+        'verdict per (configuration, packet) over all schedules; '
+        'the CALLER\'S MEMORY: every wire handed to the library -- trust anchor, packet to validate, certificate Data delivered '
+        'by the face -- given as bytes / bytearray / memoryview of bytes / memoryview of a bytearray / a window at an offset of a '
+        'larger bytearray, and the caller goes on using its buffers: histories over anchor buffers and packet buffers with the '
+        'operations load(buffer, wire: in place when it fits) / overwrite(buffer: zeros, every bit flipped, shifted by one byte) / '
+        'build a validator from a buffer / validate the packet in a buffer, in which the anchor buffer is rewritten (zeros / '
+        'flipped / shifted / the OTHER anchor: same name shape and key type, other key) after the construction, between two '
+        'validations, to build a SECOND validator from the same buffer (then every instance is asked about packets of both '
+        'anchors), loaded back, two buffers swapped, the packet buffer reused for the next packet and wiped, plus random walks '
+        'over these operations (up to 3 instances, lvs / strict schema / bare, default or explicit own storages) that end with '
+        'every buffer wiped and every instance asked about everything; in the overlapping family every other random schedule '
+        'hands the anchors over in mutable buffers (optionally ONE buffer for all instances) that are overwritten before the '
+        'first validation starts; the model and the oracle are given the history of the CALLS with the wire each buffer held '
+        'at the call (theorem C14_memory_history_is_call_history; the history as written is also run on the extracted model '
+        'of the caller\'s memory, Model/ValidatorMem.v): the verdicts may depend on nothing else.  non-trivial = at least one validation that needs a certificate '
         'fetch or a constructor decision; distinct by (scenario tag, key types, order / schedule)')
 ASSUMPTIONS = [
     'signature verification and key import are oracles: the model receives the results of the real '
@@ -58,6 +72,11 @@ ASSUMPTIONS = [
     'NDNApp.express_interest delivers a Data only for the exact requested name (C03/C05); names are compared component-wise '
     '(MemoryKeyStorage keys on Name.to_bytes, injective on well-formed names: C09_wire_roundtrip)',
     'the retrievable-certificate world is fixed during a history',
+    'caller memory: a buffer is rewritten only after the call it was handed to has returned (constructor) / answered (validation), '
+    'never while a validation that was given views into it is in flight; a Data delivered by the face is handed over for good '
+    '(the library\'s stream and UDP faces deliver a fresh immutable bytes object per packet; express_interest returns views into '
+    'it and MemoryKeyStorage keeps such a view): delivered wires are given in every form but not rewritten '
+    '(RECEIVE_BUFFER_REUSED = False, docs/C14.md)',
     'overlapping validations: answers reach the application only through the harness events deliver / expire, the loop is run to '
     'quiescence between two events (virtual clock), so the event list is the linearisation; NDNApp wakes the validations that wait '
     'for one name in the order in which their Interests were expressed (model: CDeliver; cross-checked by comparing the outstanding '
@@ -426,6 +445,7 @@ class FakeFace:
     def __init__(self, world, loop):
         self.world, self.loop = world, loop
         self.app = None
+        self.mem = None         # CallerMemory: the form in which delivered Data reach the application
         self.sent = []
         self.flag_errors = []
 
@@ -445,17 +465,155 @@ class FakeFace:
         if r is None:
             return
         if r[0] == 'data':
-            self.loop.create_task(self.app._receive(TypeNumber.DATA, self.world.pkts[r[1]]))
+            wire = self.world.pkts[r[1]]
+            self.loop.create_task(self.app._receive(TypeNumber.DATA, self.mem.deliver(wire) if self.mem else wire))
         elif r[0] == 'nack':
             self.loop.call_soon(self.app._on_nack, name, 150)
         elif r[0] == 'fail':
             raise NetworkError('injected')
 
 
-def run_impl(env, world, ops):
-    """ops: ('storage',) | ('lvs', schema_id, anchor, sarg) | ('cascade', anchor, sarg) | ('val', inst, pid)
-    anchor = pid | ('raw', bytes);  sarg = None | index of a 'storage' op.  Returns observations."""
+# ---- the caller's memory -----------------------------------------------------------------------------
+# Every wire the library is GIVEN (trust anchor, packet to validate, certificate Data delivered by the face) sits
+# in a buffer the CALLER owns, and BinaryStr admits bytes, bytearray and memoryview.  The caller may load the next
+# wire into the same buffer or overwrite it once the call it was handed to has returned: what a validator judges
+# against is what it was given at that call, not what the buffer holds later.
+FORMS_MUTABLE = ['bytearray', 'mv-bytearray', 'mv-window']
+FORMS_IMMUTABLE = ['bytes', 'mv-bytes']
+FORMS = FORMS_MUTABLE + FORMS_IMMUTABLE
+WINDOW_CAP, WINDOW_OFF = 1536, 24
+# A Data delivered by the face is handed over for good: the library's own faces give a fresh bytes object per
+# packet and express_interest returns views into it (so does every application that keeps `content`).  The family
+# still delivers it in every FORM; set True to let the face overwrite the delivered wires once the top-level
+# validation has answered (docs/C14.md, "receive buffer reused": MemoryKeyStorage keeps a view of the content).
+RECEIVE_BUFFER_REUSED = False
+
+
+class CallerMemory:
+    """buffers of the application: id -> the object handed to the library, the bytearray behind it (None for the
+    immutable forms) and what it holds: a pid of the world, or None once it was scribbled over"""
+
+    def __init__(self, world, forms):
+        self.world = world
+        self.forms = dict(forms or {})
+        self.bufs = {}          # id -> [obj, backing bytearray | None, lo, hi, holds]
+        self.retired = []       # backing stores the caller replaced (still its own memory; overwritten on retirement)
+        self.delivered = []     # backing stores of the Data the face delivered
+        self.log = []
+
+    def form(self, role):
+        return self.forms.get(role, 'bytes')
+
+    def make(self, form, wire):
+        """a fresh buffer holding [wire]: (object for the library, backing bytearray or None, lo, hi)"""
+        wire = bytes(wire)
+        n = len(wire)
+        if form == 'bytes':
+            return wire, None, 0, n
+        if form == 'mv-bytes':
+            return memoryview(wire), None, 0, n
+        if form == 'bytearray':
+            b = bytearray(wire)
+            return b, b, 0, n
+        if form == 'mv-bytearray':
+            b = bytearray(wire)
+            return memoryview(b), b, 0, n
+        if form == 'mv-window':
+            b = bytearray(b'\xee' * max(WINDOW_CAP, n + 2 * WINDOW_OFF))
+            b[WINDOW_OFF:WINDOW_OFF + n] = wire
+            return memoryview(b)[WINDOW_OFF:WINDOW_OFF + n], b, WINDOW_OFF, WINDOW_OFF + n
+        raise AssertionError(form)
+
+    def load(self, bid, role, pid):
+        """buf[:] = wire -- in place whenever the buffer can hold it, else the caller takes a new one"""
+        wire = self.world.pkts[pid]
+        n = len(wire)
+        cur = self.bufs.get(bid)
+        if cur is not None and cur[1] is not None:
+            obj, back, lo, hi, _ = cur
+            if hi - lo == n:
+                back[lo:hi] = wire                         # same size: never a resize, always allowed
+                self.bufs[bid] = [obj, back, lo, hi, pid]
+                self.log.append(('in-place', bid, pid))
+                return
+            if self.form(role) == 'mv-window' and lo + n + WINDOW_OFF <= len(back):
+                back[lo:lo + n] = wire                     # the same store, the window re-cut
+                self.bufs[bid] = [memoryview(back)[lo:lo + n], back, lo, lo + n, pid]
+                self.log.append(('in-place', bid, pid))
+                return
+            back[:] = bytes(len(back))                     # does not fit: wiped and put aside, a new one allocated
+            self.retired.append(back)
+        obj, back, lo, hi = self.make(self.form(role), wire)
+        self.bufs[bid] = [obj, back, lo, hi, pid]
+        self.log.append(('fresh', bid, pid))
+
+    def scribble(self, bid, how):
+        cur = self.bufs.get(bid)
+        if cur is None or cur[1] is None:
+            return False                                   # immutable (or nothing there): nothing the caller can do
+        self.overwrite(cur[1], how)
+        cur[4] = None
+        return True
+
+    @staticmethod
+    def overwrite(back, how):
+        if how == 'zero':
+            back[:] = bytes(len(back))
+        elif how == 'invert':
+            back[:] = bytes(x ^ 0xff for x in back)
+        elif how == 'shift':
+            back[:] = bytes(back[1:]) + b'\x00'            # every offset now points one byte further
+        else:
+            raise AssertionError(how)
+
+    def given(self, bid):
+        cur = self.bufs[bid]
+        assert cur[4] is not None, 'a scribbled buffer is never handed to the library'
+        return cur[0], cur[4]
+
+    def deliver(self, wire):
+        obj, back, _, _ = self.make(self.form('cert'), wire)
+        if back is not None:
+            self.delivered.append(back)
+        return obj
+
+    def recycle_delivered(self, how='zero'):
+        for back in self.delivered:
+            self.overwrite(back, how)
+        self.delivered = []
+
+
+def value_ops(world, ops):
+    """The history as the library is GIVEN it: every hand-over of a buffer replaced by the wire the buffer holds at
+    that moment, the caller's own memory operations dropped.  This is what the model, the specification and the
+    oracle see -- by the property the verdicts may depend on nothing else."""
+    holds, out = {}, []
+    for op in ops:
+        if op[0] == 'load':
+            holds[op[1]] = op[2]
+        elif op[0] == 'scribble':
+            holds[op[1]] = None
+        elif op[0] in ('lvs', 'cascade') and isinstance(op[-2], tuple) and op[-2][0] == 'buf':
+            pid = holds.get(op[-2][1])
+            assert pid is not None, 'generator: constructor from an empty / scribbled buffer'
+            out.append(op[:-2] + (pid, op[-1]))
+        elif op[0] == 'val' and isinstance(op[2], tuple):
+            pid = holds.get(op[2][1])
+            assert pid is not None, 'generator: validation of an empty / scribbled buffer'
+            out.append(('val', op[1], pid))
+        else:
+            out.append(op)
+    return out
+
+
+def run_impl(env, world, ops, forms=None):
+    """ops: ('storage',) | ('lvs', schema_id, anchor, sarg) | ('cascade', anchor, sarg) | ('val', inst, packet)
+    | ('load', buffer, pid) | ('scribble', buffer, how)
+    anchor = pid | ('raw', bytes) | ('buf', buffer);  packet = pid | ('buf', buffer);  sarg = None | index of a
+    'storage' op;  forms = {'anchor' | 'packet' | 'cert': one of FORMS}.  Returns observations (('mem', ..) for the
+    caller's own memory operations)."""
     from ndn.app import NDNApp
+    from ndn.encoding import parse_data
     from ndn.app_support.light_versec import lvs_validator
     from ndn.security.validator.cascade_validator import CascadeChecker, MemoryKeyStorage
     loop = vtloop.new_loop()
@@ -463,15 +621,27 @@ def run_impl(env, world, ops):
     app = NDNApp(face=face, keychain=object())
     face.app = app
     storages, insts, obs = [], [], []
+    mem = CallerMemory(world, forms)
+    face.mem = mem if forms else None
 
     async def go():
         for op in ops:
             if op[0] == 'storage':
                 storages.append(MemoryKeyStorage())
                 obs.append(('storage',))
+            elif op[0] == 'load':
+                mem.load(op[1], 'anchor' if str(op[1]).startswith('A') else 'packet', op[2])
+                obs.append(('mem', 'load', mem.log[-1][0]))
+            elif op[0] == 'scribble':
+                obs.append(('mem', 'scribbled' if mem.scribble(op[1], op[2]) else 'immutable'))
             elif op[0] in ('lvs', 'cascade'):
                 anchor, sarg = op[-2], op[-1]
-                wire = anchor[1] if isinstance(anchor, tuple) else world.pkts[anchor]
+                if isinstance(anchor, tuple):
+                    wire = mem.given(anchor[1])[0] if anchor[0] == 'buf' else anchor[1]
+                elif forms:
+                    wire = mem.make(mem.form('anchor'), world.pkts[anchor])[0]
+                else:
+                    wire = world.pkts[anchor]
                 extra = [] if sarg is None else [storages[sarg]]
                 try:
                     if op[0] == 'lvs':
@@ -486,12 +656,19 @@ def run_impl(env, world, ops):
                 if op[1] >= len(insts):
                     obs.append(('bad',))
                     continue
-                p = world.parse(op[2])
                 face.begin()
                 try:
+                    if isinstance(op[2], tuple) or forms:
+                        # what an application does with a wire in its own buffer: parse it there, give the views
+                        given = (mem.given(op[2][1])[0] if isinstance(op[2], tuple)
+                                 else mem.make(mem.form('packet'), world.pkts[op[2]])[0])
+                        pname, _, _, pptrs = parse_data(given)
+                    else:
+                        p = world.parse(op[2])
+                        pname, pptrs = p['fname'], p['ptrs']
                     # watchdog on the virtual clock: a validator that waits for something nobody will ever provide
                     # (no Interest outstanding, no timer) must end the history, not hang the harness
-                    r = await asyncio.wait_for(insts[op[1]](p['fname'], p['ptrs']), WATCHDOG)
+                    r = await asyncio.wait_for(insts[op[1]](pname, pptrs), WATCHDOG)
                     obs.append(('val', 'ok', 1 if r else 0, list(face.sent)))
                 except TimeoutError:
                     obs.append(('val', 'hang', None, list(face.sent)))
@@ -499,6 +676,8 @@ def run_impl(env, world, ops):
                     obs.append(('val', 'fuel', None, list(face.sent)))
                 except (Exception, asyncio.CancelledError) as e:   # noqa  (awaiting a cancelled future raises CancelledError)
                     obs.append(('val', 'err', exc_code(e), list(face.sent), type(e).__name__))
+                if RECEIVE_BUFFER_REUSED:
+                    mem.recycle_delivered()
     try:
         loop.run_until_complete(go())
         loop.settle()
@@ -542,6 +721,34 @@ def model_ops(world, ops, schema_ids):
     return out
 
 
+def model_mem_ops(world, ops, schema_ids):
+    """the history AS WRITTEN for request 5 (Model/ValidatorMem.v): buffers by number, loads carry the wire,
+    hand-overs name the buffer; a wire given directly (no buffer of the history) gets a buffer of its own"""
+    ids, out = {}, []
+
+    def bid(b):
+        return ids.setdefault(b, len(ids))
+
+    def direct(pid):
+        out.append([10, bid(('direct', len(out))), [1, pid]])
+        return len(ids) - 1
+    for op in ops:
+        if op[0] == 'storage':
+            out.append([0])
+        elif op[0] == 'load':
+            out.append([10, bid(op[1]), [1, op[2]]])
+        elif op[0] == 'scribble':
+            out.append([11, bid(op[1])])
+        elif op[0] in ('lvs', 'cascade'):
+            anchor, sarg = op[-2], op[-1]
+            b = bid(anchor[1]) if isinstance(anchor, tuple) else direct(anchor)
+            sa = [] if sarg is None else [2 + sarg]
+            out.append([1, schema_ids.index(op[1]), b, sa] if op[0] == 'lvs' else [2, b, sa])
+        else:
+            out.append([3, op[1], bid(op[2][1]) if isinstance(op[2], tuple) else direct(op[2])])
+    return out
+
+
 def norm_model_obs(m):
     """model observation -> same shape as run_impl's"""
     out = []
@@ -575,19 +782,38 @@ def same_obs(a, b):
 
 
 # ------------------------------------------------------------------------------------------------
-def check_history(ctx, env, world, ops, tag, legacy=False):
-    """run implementation + model + specification on one history; report"""
+def check_history(ctx, env, world, ops, tag, legacy=False, forms=None):
+    """run implementation + model + specification on one history; report.  With buffers (ops load / scribble,
+    hand-overs ('buf', id)) the implementation runs the history as written, the model and the oracle run the
+    history of the wires GIVEN at each call (value_ops)."""
+    full_ops = [tuple(o) for o in ops]
+    ops = value_ops(world, full_ops)
     schema_ids = sorted({op[1] for op in ops if op[0] == 'lvs'})
     anchors = sorted({op[-2] for op in ops if op[0] in ('lvs', 'cascade') and not isinstance(op[-2], tuple)})
     W, S = world.tables(anchors, schema_ids)
-    impl, flag_errors = run_impl(env, world, ops)
-    case = {'tag': tag, 'ops': [list(o) for o in ops], 'pkts': world.pkts,
+    impl_all, flag_errors = run_impl(env, world, full_ops, forms)
+    impl = [o for o in impl_all if o[0] != 'mem']
+    for o in impl_all:
+        if o[0] == 'mem':
+            ctx.stat('caller-memory:' + ':'.join(o[1:]))
+    case = {'tag': tag, 'ops': [list(o) for o in full_ops], 'pkts': world.pkts,
             'store': {k.hex(): list(v) for k, v in world.store.items()}}
+    if forms:
+        case['forms'] = dict(forms)
+        case['given'] = [list(o) for o in ops]
     m = ctx.call([1, 1 if legacy else 0, FUEL, W, S, model_ops(world, ops, schema_ids)])
     if is_err(m):
         ctx.disagree('history', 'model rejected the request', case, m, impl)
         return impl
     mo = norm_model_obs(m)
+    if len(full_ops) != len(ops):
+        # the history as written, memory operations included, on the model of the caller's memory (request 5): it
+        # must be the history of the calls (theorem C14_memory_history_is_call_history, here on the extracted code)
+        mm = ctx.call([5, 1 if legacy else 0, FUEL, W, S, model_mem_ops(world, full_ops, schema_ids)])
+        ctx.stat('caller-memory:written-history-on-the-memory-model')
+        if is_err(mm) or norm_model_obs([x[0] for x in mm if x]) != mo:
+            ctx.disagree('caller-memory', 'the model of the history with buffers differs from the model of the calls',
+                         case, mm, mo)
     if len(mo) != len(impl) or not all(same_obs(a, b) for a, b in zip(mo, impl)):
         k = next((i for i, (a, b) in enumerate(zip(mo, impl)) if not same_obs(a, b)), None)
         site = 'history'
@@ -599,6 +825,14 @@ def check_history(ctx, env, world, ops, tag, legacy=False):
                      [1, 0], flag_errors[0])
 
     # ---- direct oracle: the specification evaluated on what the implementation did -------------------
+    # (the specification is a function of its arguments: one evaluation per (world tables, question) and scenario)
+    memo = world.__dict__.setdefault('_spec_memo', {})
+    wkey = (tuple(anchors), tuple(schema_ids), len(world.pkts), hash(frozenset(world.store.items())))
+
+    def spec(key, request):
+        if (wkey, key) not in memo:
+            memo[(wkey, key)] = ctx.call(request())
+        return memo[(wkey, key)]
     insts = []      # (kind, schema_id, anchor_pid, storage key)
     shared = {}
     k = 0
@@ -609,10 +843,11 @@ def check_history(ctx, env, world, ops, tag, legacy=False):
             if not isinstance(anchor, tuple):
                 if op[0] == 'lvs':
                     si = schema_ids.index(op[1])
-                    r = ctx.call([3, W, S[si], anchor])
+                    r = spec(('ctor', op[1], anchor), lambda: [3, W, S[si], anchor])
                     good_spec = bool(r[0] and r[1] and r[2])
                 else:
-                    r = ctx.call([3, W, [1, [], [[world.parse(anchor)['name'], [1, [b'x']]]], []], anchor])
+                    r = spec(('ctor', None, anchor),
+                             lambda: [3, W, [1, [], [[world.parse(anchor)['name'], [1, [b'x']]]], []], anchor])
                     good_spec = bool(r[2])
             else:
                 good_spec = False
@@ -639,7 +874,7 @@ def check_history(ctx, env, world, ops, tag, legacy=False):
             continue
         a = world.parse(anchor)
         trust = [a['name'], a['content'][0], [] if kind == 'cascade' else [S[schema_ids.index(sid)][3]]]
-        ch = ctx.call([2, 64, W, trust, op[2]])
+        ch = spec(('chain', kind, sid, anchor, op[2]), lambda: [2, 64, W, trust, op[2]])
         chain = None if ch == [] else bool(ch[0])
         accepted = ob[1] == 'ok' and ob[2] == 1
         site = 'lvs_validator' if kind == 'lvs' else 'CascadeChecker.validate'
@@ -1192,10 +1427,12 @@ class ConcFace:
         self.pending = [e for e in self.pending if e[0] != tid] + [[tid, nb]]
 
 
-def run_conc_impl(env, world, ctors, threads, choose=None, script=None, own_storage=True):
+def run_conc_impl(env, world, ctors, threads, choose=None, script=None, own_storage=True, anchor_mem=None):
     """The instances of [ctors] on ONE NDNApp; the validations threads = [(instance, pid)] are started in that order,
     answers are delivered as the schedule says.  choose(step, enabled events) -> index, or script = the exact list
-    of events ('start', instance, pid) | ('deliver', name bytes) | ('expire',).  Returns the observations."""
+    of events ('start', instance, pid) | ('deliver', name bytes) | ('expire',).  anchor_mem = (form, how): the trust
+    anchors are handed over in buffers of the caller (how = 'same-buffer': ONE buffer, each anchor loaded in turn)
+    which it overwrites before the first validation starts.  Returns the observations."""
     from ndn.app import NDNApp
     from ndn.encoding import Name, TypeNumber
     from ndn.app_support.light_versec import lvs_validator
@@ -1204,18 +1441,29 @@ def run_conc_impl(env, world, ctors, threads, choose=None, script=None, own_stor
     face = ConcFace(world, loop)
     app = NDNApp(face=face, keychain=object())
     face.app = app
-    out = {'new': ('ok',), 'events': [], 'widths': [], 'queues': [], 'threads': [], 'caches': None}
+    out = {'new': ('ok',), 'events': [], 'widths': [], 'queues': [], 'threads': [], 'caches': None,
+           'anchor_mem': list(anchor_mem) if anchor_mem else None}
     storages = [MemoryKeyStorage() for _ in ctors] if own_storage else None
     results, tasks, started, vs = {}, [], [], []
     closing = False
     try:
         try:
+            cm = CallerMemory(world, {'anchor': anchor_mem[0]}) if anchor_mem else None
             for i, ctor in enumerate(ctors):
                 extra = [storages[i]] if own_storage else []
-                if ctor[0] == 'lvs':
-                    vs.append(lvs_validator(env.schemas[ctor[1]], app, world.pkts[ctor[-2]], *extra))
+                if cm is None:
+                    wire = world.pkts[ctor[-2]]
                 else:
-                    vs.append(CascadeChecker(app, world.pkts[ctor[-2]], *extra))
+                    bid = 'A0' if anchor_mem[1] == 'same-buffer' else 'A%d' % i
+                    cm.load(bid, 'anchor', ctor[-2])
+                    wire = cm.given(bid)[0]
+                if ctor[0] == 'lvs':
+                    vs.append(lvs_validator(env.schemas[ctor[1]], app, wire, *extra))
+                else:
+                    vs.append(CascadeChecker(app, wire, *extra))
+            if cm is not None:
+                for bid in list(cm.bufs):
+                    cm.scribble(bid, 'zero' if anchor_mem[1] == 'same-buffer' else anchor_mem[1])
         except Exception as e:   # noqa
             out['new'] = ('err', exc_code(e), type(e).__name__)
             return out
@@ -1354,6 +1602,7 @@ class ConcScenario:
                 'threads': [list(t) for t in self.threads],
                 'events': [list(e) for e in impl['events']], 'pkts': self.world.pkts,
                 'store': {k.hex(): list(v) for k, v in self.world.store.items()},
+                'anchor_mem': impl.get('anchor_mem'),
                 'observed': [(inst, pid, st[:2]) for inst, pid, st, _ in impl['threads']]}
 
     def correspondence(self, impl, case):
@@ -1434,9 +1683,12 @@ class ConcScenario:
                                   'is in flight / the order in which certificates arrive', case)
                 self.verdicts.setdefault(k, accepted)
 
-    def run_one(self, choose, own_storage=True):
-        impl = run_conc_impl(self.env, self.world, self.ctors, self.threads, choose=choose, own_storage=own_storage)
-        key = tuple(tuple(e) for e in impl['events'])
+    def run_one(self, choose, own_storage=True, anchor_mem=None):
+        impl = run_conc_impl(self.env, self.world, self.ctors, self.threads, choose=choose, own_storage=own_storage,
+                             anchor_mem=anchor_mem)
+        key = tuple(tuple(e) for e in impl['events']) + ((tuple(anchor_mem),) if anchor_mem else ())
+        if anchor_mem:
+            self.ctx.stat(f'conc-anchor-buffer-rewritten:{anchor_mem[1]}')
         if key in self.seen:
             return impl, False
         self.seen.add(key)
@@ -1470,7 +1722,9 @@ class ConcScenario:
             prefix = choices[:i] + [choices[i] + 1]
         for _ in range(n_random):
             r = random.Random(rng.getrandbits(32))
-            self.run_one(lambda step, en: r.randrange(len(en)), own_storage=r.random() < 0.8)
+            # every other one: the anchors sit in buffers of the caller which it overwrites after the constructions
+            am = (r.choice(FORMS_MUTABLE), r.choice(['zero', 'invert', 'shift', 'same-buffer'])) if _ % 2 == 0 else None
+            self.run_one(lambda step, en: r.randrange(len(en)), own_storage=r.random() < 0.8, anchor_mem=am)
 
 
 def alt_leaf(h, depth, k):
@@ -1601,8 +1855,154 @@ def gen_concurrent(ctx, env):
                 ConcScenario(ctx, env, w, [ctor], [(0, leaf), (0, leaf)], tag).explore(rng, ctx.n(1, 6), ctx.n(1, 12))
 
 
+# ------------------------------------------------------------------------------------------------
+# The caller's buffers: what is handed over is a bytes / bytearray / memoryview (whole, or a window of a larger
+# store), and the caller goes on using its memory afterwards.
+BUF_REWRITES = ['zero', 'invert', 'shift', 'other-anchor']
+BUF_KINDS = [('lvs', 0), ('cascade', None), ('lvs', 1)]
+
+
+def buffer_world(env, rng):
+    """two hierarchies with the same names below the root, the same key types level by level (so the two anchors
+    have the same layout and usually the same length) and different keys; the certificates of the first are
+    retrievable.  Packets: the leaf (chain of [depth] certificates to anchor 1), a notice signed by anchor 1 itself,
+    a notice signed by anchor 2, the certificate next to the leaf as a packet."""
+    kts = [rng.choice(['ec', 'rsa', 'ed', 'ed', 'ec']) for _ in range(4)]
+    h1 = Hier(env, rng, ktypes=kts, rid='r')
+    for _ in range(20):
+        h2 = Hier(env, rng, ktypes=kts, rid='q')
+        if h2.key['root'][2] != h1.key['root'][2]:
+            break
+    depth = rng.choice([1, 2, 2, 3])
+    w, a1, chain = base_world(env, h1, depth)
+    a2 = w.add(h2.build_cert('root'))
+    for _ in range(6):      # ECDSA signatures are 70..72 bytes: try for anchors of ONE length (whole-buffer reload)
+        if len(w.pkts[a2]) == len(w.pkts[a1]):
+            break
+        w.pkts.pop()
+        a2 = w.add(h2.build_cert('root'))
+    pk = {'leaf': chain[0],
+          'by-anchor-1': w.add(env.data('/lvs/notice/n1', b'first', env.signer(h1.key['root'], h1.names['root']))),
+          'by-anchor-2': w.add(env.data('/lvs/notice/n2', b'second', env.signer(h2.key['root'], h2.names['root']))),
+          'cert': chain[1]}
+    return w, a1, a2, pk, depth, kts
+
+
+def buffer_histories(rng, a1, a2, pk, thorough):
+    """(shape, rewrite, ops): the caller rewrites its buffers at every kind of later point of the history"""
+    out = []
+    L, N1, N2, C = pk['leaf'], pk['by-anchor-1'], pk['by-anchor-2'], pk['cert']
+
+    def new(kind, buf, sarg=None):
+        return ('lvs', kind[1], ('buf', buf), sarg) if kind[0] == 'lvs' else ('cascade', ('buf', buf), sarg)
+
+    def rewrite(buf, how):
+        return ('load', buf, a2) if how == 'other-anchor' else ('scribble', buf, how)
+    for how in BUF_REWRITES:
+        kind = rng.choice(BUF_KINDS)
+        out.append(('after-construction', how,
+                    [('load', 'A0', a1), new(kind, 'A0'), rewrite('A0', how),
+                     ('val', 0, L), ('val', 0, N1), ('val', 0, N2), ('val', 0, L)]))
+        kind = rng.choice(BUF_KINDS)
+        out.append(('between-validations', how,
+                    [('load', 'A0', a1), new(kind, 'A0'), ('val', 0, L), ('val', 0, N1), ('val', 0, N2),
+                     rewrite('A0', how), ('val', 0, L), ('val', 0, N1), ('val', 0, N2), ('val', 0, C)]))
+    for k2 in (BUF_KINDS if thorough else [rng.choice(BUF_KINDS)]):
+        kind = rng.choice(BUF_KINDS)
+        # the application loads the anchor of its SECOND validator into the buffer the first one was built from
+        out.append(('second-instance-same-buffer', 'other-anchor',
+                    [('load', 'A0', a1), new(kind, 'A0'), ('val', 0, N1), ('load', 'A0', a2), new(k2, 'A0'),
+                     ('val', 0, N1), ('val', 0, N2), ('val', 0, L), ('val', 1, N1), ('val', 1, N2), ('val', 1, L)]))
+        out.append(('second-instance-then-back', 'other-anchor',
+                    [('load', 'A0', a1), new(kind, 'A0'), ('load', 'A0', a2), new(k2, 'A0'), ('load', 'A0', a1),
+                     ('val', 1, N2), ('val', 1, N1), ('val', 0, N1), ('val', 0, N2), ('scribble', 'A0', 'zero'),
+                     ('val', 1, N2), ('val', 0, N1), ('val', 0, L), ('val', 1, L)]))
+        out.append(('two-buffers', 'other-anchor',
+                    [('load', 'A0', a1), ('load', 'A1', a2), new(kind, 'A0'), new(k2, 'A1'), ('load', 'A0', a2),
+                     ('load', 'A1', a1), ('val', 0, N1), ('val', 1, N1), ('val', 0, N2), ('val', 1, N2), ('val', 0, L)]))
+    kind = rng.choice(BUF_KINDS)
+    out.append(('packet-buffer-reused', 'reload',
+                [('load', 'A0', a1), new(kind, 'A0'), ('load', 'P0', L), ('val', 0, ('buf', 'P0')), ('load', 'P0', N2),
+                 ('val', 0, ('buf', 'P0')), ('load', 'P0', N1), ('val', 0, ('buf', 'P0')), ('scribble', 'P0', 'invert'),
+                 ('load', 'P0', L), ('val', 0, ('buf', 'P0')), ('load', 'P0', C), ('val', 0, ('buf', 'P0')),
+                 ('scribble', 'P0', 'zero'), ('val', 0, L), ('val', 0, N2)]))
+    return out
+
+
+def random_buffer_history(rng, a1, a2, pk, n_steps):
+    """a random walk of the application over its memory: load / overwrite an anchor or packet buffer, build a
+    validator from an anchor buffer, validate the packet in a packet buffer -- only loaded buffers are handed over"""
+    own = rng.random() < 0.3
+    ops = [('storage',)] * 3 if own else []
+    holds, ninst = {}, 0
+    pks = list(pk.values())
+
+    def new(buf):
+        nonlocal ninst
+        kind = rng.choice(BUF_KINDS)
+        sarg = ninst if own else None
+        ninst += 1
+        return ('lvs', kind[1], ('buf', buf), sarg) if kind[0] == 'lvs' else ('cascade', ('buf', buf), sarg)
+    ops += [('load', 'A0', a1)]
+    holds['A0'] = a1
+    ops.append(new('A0'))
+    for _ in range(n_steps):
+        x = rng.random()
+        ab, pb = rng.choice(['A0', 'A0', 'A1']), rng.choice(['P0', 'P1'])
+        if x < 0.18:
+            holds[ab] = rng.choice([a1, a2, a2])
+            ops.append(('load', ab, holds[ab]))
+        elif x < 0.30:
+            holds[ab] = None
+            ops.append(('scribble', ab, rng.choice(['zero', 'invert', 'shift'])))
+        elif x < 0.42 and ninst < 3 and holds.get(ab) is not None:
+            ops.append(new(ab))
+        elif x < 0.60:
+            holds[pb] = rng.choice(pks)
+            ops.append(('load', pb, holds[pb]))
+        elif x < 0.66:
+            holds[pb] = None
+            ops.append(('scribble', pb, rng.choice(['zero', 'invert'])))
+        elif x < 0.85 and holds.get(pb) is not None:
+            ops.append(('val', rng.randrange(ninst), ('buf', pb)))
+        else:
+            ops.append(('val', rng.randrange(ninst), rng.choice(pks)))
+    for i in range(ninst):          # and at the end everybody is asked about everything, all buffers wiped
+        if i == 0:
+            ops += [('scribble', b, 'zero') for b in ('A0', 'A1', 'P0', 'P1') if b in holds]
+        ops += [('val', i, p) for p in pks[:3]]
+    return ops
+
+
+def gen_buffers(ctx, env):
+    """every wire handed to the library (trust anchor, packet, delivered certificate) as bytes / bytearray /
+    memoryview (of bytes, of a bytearray, a window of a larger store), and the caller REWRITES its buffers later:
+    after the construction, between two validations, to build a second validator from the same buffer, to validate
+    the next packet.  The model and the oracle are given the history of the wires that were in the buffers when they
+    were handed over (value_ops): by the property nothing else may matter."""
+    rng = ctx.rng
+    for wi in range(ctx.n(4, 40)):
+        w, a1, a2, pk, depth, kts = buffer_world(env, rng)
+        same_len = len(w.pkts[a1]) == len(w.pkts[a2])
+        hs = [(shape, how, ops) for shape, how, ops in buffer_histories(rng, a1, a2, pk, ctx.thorough)]
+        hs += [('random-walk', 'mixed', random_buffer_history(rng, a1, a2, pk, rng.randrange(8, 16)))
+               for _ in range(ctx.n(7, 30))]
+        for hi, (shape, how, ops) in enumerate(hs):
+            forms = {'anchor': FORMS[(wi + hi) % len(FORMS)] if (wi + hi) % 4 == 3 else
+                     FORMS_MUTABLE[(wi + hi) % len(FORMS_MUTABLE)],
+                     'packet': rng.choice(FORMS), 'cert': rng.choice(FORMS)}
+            tag = f'buffers:{shape}:{how}:d{depth}:{forms["anchor"]}/{forms["packet"]}/{forms["cert"]}:' + \
+                  ''.join(k[0] for k in kts[:depth + 1])
+            impl = check_history(ctx, env, w, ops, tag, forms=forms)
+            ctx.case((tag, wi, hi), nontrivial=True,
+                     stratum=f'buffers:{shape}:{how}:anchor-in-{forms["anchor"]}',
+                     sample={'tag': tag, 'obs': [o[:3] for o in impl]})
+            ctx.stat('buffers:anchors-of-one-length:' + str(same_len))
+
+
 def run(ctx):
     env = Env(ctx)
+    gen_buffers(ctx, env)
     gen_concurrent(ctx, env)
     gen_same_key(ctx, env)
     gen_anchors(ctx, env)
@@ -1632,12 +2032,12 @@ def replay(ctx, data):
     if case.get('kind') == 'concurrent':
         sc = ConcScenario(ctx, env, w, [tuple(c) for c in case['ctors']], case['threads'], case['tag'])
         events = [tuple(e) for e in case['events']]
-        impl = run_conc_impl(env, w, sc.ctors, sc.threads, script=events)
+        impl = run_conc_impl(env, w, sc.ctors, sc.threads, script=events, anchor_mem=case.get('anchor_mem'))
         sc.check(impl, len(events) < MAX_EVENTS)
         ctx.case(('replay', case['tag']), nontrivial=True, sample={'tag': case['tag']})
         print('replayed', case['tag'], [e[0] for e in events], [(i, pid, st[:2]) for i, pid, st, _ in impl['threads']])
         return
     ops = [tuple(tuple(x) if isinstance(x, list) else x for x in o) for o in case['ops']]
-    impl = check_history(ctx, env, w, ops, case['tag'])
+    impl = check_history(ctx, env, w, ops, case['tag'], forms=case.get('forms'))
     ctx.case(('replay', case['tag']), nontrivial=True, sample={'tag': case['tag'], 'obs': [o[:3] for o in impl]})
     print('replayed', case['tag'], [o[:3] for o in impl])
